@@ -35,7 +35,7 @@ PROP = "C20"
 MODNAME = __name__
 
 KINDS = ["entry", "string", "preamble", "ecomment", "icomment"]
-RETURNS = ["same", "none", "empty-list", "empty-tuple", "list1", "list2", "tuple3", "generator", "object", "int0", "false", "list-with-nonblock", "str", "dict", "rename-same"]
+RETURNS = ["same", "none", "empty-list", "empty-tuple", "list1", "list2", "tuple3", "generator", "object", "int0", "false", "list-with-nonblock", "str", "dict", "rename-same", "tag", "subclass", "library"]
 
 
 def kind_of(b):
@@ -58,6 +58,23 @@ def make_result(ret, b):
     """What a block probe returns for block b; second value: the expected splice or the string 'TypeError'."""
     if ret == "same":
         return b, [b]
+    if ret == "tag":
+        # visible effect of the per-kind handler having been called
+        if isinstance(b, Entry):
+            b.set_field(Field("probe", "seen"))
+        elif isinstance(b, String):
+            b.value = str(b.value) + "+seen"
+        return b, [b]
+    if ret == "subclass":
+        # an instance of a user-defined subclass of the model class replaces the block: later stages must treat it as that kind
+        c = copy.deepcopy(b)
+        if type(b) is Entry:
+            c.__class__ = _SubEntry
+        elif type(b) is String:
+            c.__class__ = _SubString
+        return c, [c]
+    if ret == "library":
+        return Library([copy.deepcopy(b)]), "TypeError"
     if ret == "rename-same":
         # the very same instance comes back with another key: the library rebuilt from the results must
         # treat it under its new key (collisions become duplicate blocks)
@@ -93,6 +110,14 @@ def make_result(ret, b):
     if ret == "dict":
         return {"a": b}, "TypeError"
     raise harness.HarnessError(ret)
+
+
+class _SubEntry(Entry):
+    pass
+
+
+class _SubString(String):
+    pass
 
 
 class LibProbe(LibraryMiddleware):
@@ -420,6 +445,12 @@ def w_block_probes(acc, kind_i):
             acc.run("parse", o_parse, {"doc": doc, "parse_stack": [spec], "append_middleware": None, "via": "string"}, True)
             acc.run("parse", o_parse, {"doc": doc, "parse_stack": None, "append_middleware": [spec, LIB_PROBES[0]], "via": "string"}, True)
             acc.run("write", o_write, {"doc": doc, "unparse_stack": None, "prepend_middleware": [spec], "fmt": None, "via": "string"}, True)
+    if kind in ("entry", "string"):
+        for doc in range(N_DOCS):
+            sub = {"probe": "block", "rets": {kind: "subclass"}}
+            tag = {"probe": "block", "rets": {kind: "tag"}}
+            acc.run("parse", o_parse, {"doc": doc, "parse_stack": [sub, tag, LIB_PROBES[0]], "append_middleware": None, "via": "string"}, True)
+            acc.run("parse", o_parse, {"doc": doc, "parse_stack": None, "append_middleware": [sub, tag, tag], "via": "string"}, True)
     for r1, r2 in itertools.product(["none", "list2", "tuple3", "empty-list"], repeat=2):
         for doc in range(N_DOCS):
             spec = {"probe": "block", "rets": {kind: r1, KINDS[(kind_i + 1) % 5]: r2}}
